@@ -65,4 +65,88 @@ theorem axisRot_conj (Q : M3 K) (hQ : Q.transpose.mul Q = M3.one) (hd : Q.det = 
   simp only [M3.det] at hd
   ext <;> simp only [axisRot, M3.mulVec, M3.mul] <;> grind
 
+/-! ### NumPy broadcasting of shapes -/
+
+theorem bcastDim_one_left (b : Nat) : bcastDim 1 b = some b := by
+  unfold bcastDim; split_ifs <;> simp_all
+theorem bcastDim_one_right (a : Nat) : bcastDim a 1 = some a := by
+  unfold bcastDim; split_ifs <;> simp_all
+theorem bcastRev_nil_left (l : List Nat) : bcastRev [] l = some l := by
+  cases l <;> rfl
+theorem bcastRev_nil_right (l : List Nat) : bcastRev l [] = some l := by
+  cases l <;> rfl
+theorem bcastRev_one_left {l : List Nat} (h : l ≠ []) : bcastRev [1] l = some l := by
+  cases l with
+  | nil => exact absurd rfl h
+  | cons b bs => simp [bcastRev, bcastDim_one_left]
+theorem bcastRev_one_right {l : List Nat} (h : l ≠ []) : bcastRev l [1] = some l := by
+  cases l with
+  | nil => exact absurd rfl h
+  | cons b bs => simp [bcastRev, bcastDim_one_right, bcastRev_nil_right]
+theorem bcastRev_ne_nil {l m u : List Nat} (h : l ≠ []) (e : bcastRev l m = some u) : u ≠ [] := by
+  cases l with
+  | nil => exact absurd rfl h
+  | cons a as =>
+    cases m with
+    | nil => simp [bcastRev] at e; subst e; simp
+    | cons b bs =>
+      simp only [bcastRev] at e
+      split at e
+      · simp at e; subst e; simp
+      · simp at e
+
+theorem bcast_nil_left (s : List Nat) : bcast [] s = some s := by
+  simp [bcast, bcastRev_nil_left]
+theorem bcast_nil_right (s : List Nat) : bcast s [] = some s := by
+  simp [bcast, bcastRev_nil_right]
+theorem bcast_one_left {s : List Nat} (h : s ≠ []) : bcast [1] s = some s := by
+  have : s.reverse ≠ [] := by simpa using h
+  simp [bcast, bcastRev_one_left this]
+theorem bcast_one_right {s : List Nat} (h : s ≠ []) : bcast s [1] = some s := by
+  have : s.reverse ≠ [] := by simpa using h
+  simp [bcast, bcastRev_one_right this]
+theorem bcast_ne_nil {s t u : List Nat} (h : s ≠ []) (e : bcast s t = some u) : u ≠ [] := by
+  have hs : s.reverse ≠ [] := by simpa using h
+  simp only [bcast, Option.map_eq_some_iff] at e
+  obtain ⟨w, hw, rfl⟩ := e
+  have := bcastRev_ne_nil hs hw
+  simpa using this
+
+/-- `some [] ↦ some [1]`, everything else unchanged -/
+def norm1 : Option (List Nat) → Option (List Nat)
+  | some [] => some [1]
+  | r => r
+
+theorem norm1_some {s : List Nat} : norm1 (some s) = some (atLeast1 s) := by
+  cases s <;> simp [norm1, atLeast1]
+
+theorem bcastAll_atLeast1 {ms : List (List Nat)} (h : ms ≠ []) :
+    bcastAll (ms.map atLeast1) = norm1 (bcastAll ms) := by
+  induction ms with
+  | nil => exact absurd rfl h
+  | cons s r ih =>
+    by_cases hr : r = []
+    · subst hr
+      simp [bcastAll, bcast_nil_right, norm1_some]
+    · have ih := ih hr
+      simp only [List.map_cons, bcastAll, ih]
+      cases hb : bcastAll r with
+      | none => simp [norm1]
+      | some t =>
+        by_cases ht : t = []
+        · subst ht
+          by_cases hs : s = []
+          · subst hs; simp [norm1, atLeast1, bcast_nil_left]; rfl
+          · simp [norm1, atLeast1, hs, bcast_one_right hs, bcast_nil_right]
+        · have e1 : norm1 (some t) = some t := by cases t <;> simp_all [norm1]
+          rw [e1]
+          by_cases hs : s = []
+          · subst hs; simp [atLeast1, bcast_one_left ht, bcast_nil_left, e1]
+          · simp only [atLeast1, hs, List.isEmpty_iff, if_false]
+            cases hst : bcast s t with
+            | none => simp [norm1]
+            | some u =>
+              have := bcast_ne_nil hs hst
+              cases u <;> simp_all [norm1]
+
 end OdlModel.Geometry
